@@ -127,7 +127,9 @@ func (c *Coordinate) DistanceTo(other *Coordinate) time.Duration {
 	}
 
 	dist := c.rawDistanceTo(other)
-	adjustedDist := dist + c.Adjustment + other.Adjustment
+	// Sum the two adjustments first so that the estimate is exactly the same
+	// in both directions, even when the adjusted distance is at the guard.
+	adjustedDist := dist + (c.Adjustment + other.Adjustment)
 	if adjustedDist > 0.0 {
 		dist = adjustedDist
 	}
@@ -138,7 +140,7 @@ func (c *Coordinate) DistanceTo(other *Coordinate) time.Duration {
 // other coordinate in seconds, not including adjustments. This assumes the
 // dimensions have already been checked to be compatible.
 func (c *Coordinate) rawDistanceTo(other *Coordinate) float64 {
-	return magnitude(diff(c.Vec, other.Vec)) + c.Height + other.Height
+	return magnitude(diff(c.Vec, other.Vec)) + (c.Height + other.Height)
 }
 
 // add returns the sum of vec1 and vec2. This assumes the dimensions have
